@@ -151,6 +151,7 @@ class Recorder:
 def run_cli(args, record=("getDependentProducts", "uses")):
     """Run `eups <args>` in this process.  Returns {"rc": exit code | None, "error": class | None,
     "records": [(method, result)], "stdout": text}.  Call inside a forked child."""
+    common.import_eups()
     import eups.cmd
     M = common.eups_mod("Eups")
     rec = Recorder()
@@ -174,10 +175,17 @@ def run_cli(args, record=("getDependentProducts", "uses")):
 def cli_eups(cmdname, args):
     """An Eups configured exactly as the command line `eups <cmdname> <args>` configures it
     (option parsing, Eups constructor arguments, selectVRO, user data dir, callbacks)."""
+    common.import_eups()
     import eups.cmd
     top = eups.cmd.EupsCmd(args=[cmdname] + list(args), toolname="eups")
     ecmd = eups.cmd.makeEupsCmd(top.cmd, top)
     return ecmd
+
+
+def preimport():
+    """Import (never construct) the command-line module in the parent, so that forked children do not pay for it."""
+    common.import_eups()
+    import eups.cmd  # noqa: F401
 
 
 def quietly(fn, *a, **kw):
